@@ -283,6 +283,7 @@ func checkC13(c *Ctx) {
 	c.R.Explanation = "Static rules over wasp/conn.go, wasp/packets.go, wasp/nodes.go, wasp/sessions/session.go: (R1) teardown decision table for the will: never after DISCONNECT; exactly one publication through the normal publish path when the session died without DISCONNECT, has a will, and its record is absent or still ours; (R2) the Disconnected flag is set only where the dispatcher returned the session-ended sentinel, which only the DISCONNECT arm and the displaced-session row of PINGREQ return, and it is set before the loop ends; (R3) on peer failure each lost session's will is appended to the log once, qualified with that session's mount point; (R4) the will is captured field by field from CONNECT and the stored record receives session.LWT()."
 	c.R.NotCovered = "'each matching subscriber exactly once' across nodes (needs matching semantics and run-time membership), will delay, retained wills."
 	defer c.ruleWillHandOff("C13-R7")
+	defer c.ruleRegisteredBeforeServed("C13-R8")
 	ru1 := c.R.Rule("C13-R1", "teardown: DISC ⇒ no will publication; ¬DISC ∧ WILL ∧ (¬FOUND ∨ MINE) ⇒ exactly one Process(ctx, session, nil, lwt) of the session's own will", "E1 decision table", 2)
 	td := c.teardown(ru1)
 	if td != nil {
